@@ -434,7 +434,7 @@ pub fn c07(a: &Args) {
 
     // (3) seeded random documents
     if only.is_empty() || only == "rnd" {
-        let n = a.usize("docs", if thorough { 700 } else { 300 });
+        let n = a.usize("docs", if thorough { 3000 } else { 300 });
         for d in 0..n {
             let mut r = rng(seed, 1000 + d as u64);
             let big = thorough && d % 7 == 0;
